@@ -30,14 +30,15 @@ impl PatchTrait for PatchArm {
 
         let instructions: [u32; 3] = if is_src_thumb {
             [
-                // ldr r7, [pc, #0] ; 0x4F00. It will load pc + 0 into r6, so the target word
-                // bx r7 ; 4738
-                // Reversed because of little endian
-                0x47384F00,
+                // ldr.w r12, [pc, #4] ; F8DF C004 (Thumb-2). Loads the word at Align(pc, 4) + 4 into
+                // r12 (ip, the intra-procedure-call scratch register: r7 is callee-saved and is the
+                // Thumb frame pointer, it must not be clobbered).
+                // Two halfwords, each little endian
+                0xC004F8DF,
+                // bx r12 ; 4760, then mov r8, r8 (nop) ; 46C0 as padding so that the literal is word aligned
+                0x46C04760,
                 // .word target
                 target.as_ptr() as u32,
-                // .word anything (unused)
-                0x00000000,
             ]
         } else {
             [
@@ -57,12 +58,13 @@ impl PatchTrait for PatchArm {
         patch[4..8].copy_from_slice(&instructions[1].to_le_bytes());
         patch[8..12].copy_from_slice(&instructions[2].to_le_bytes());
 
-        // In thumb mode, if the source is not aligned on 32 bit, add a NOP to align it, so the target adress is also aligned on 32 bit
-        // If we don't do that, the load adress will be misaligned and will load the bx instruction instead of the target function.
+        // In thumb mode, if the source is not aligned on 32 bit, Align(pc, 4) is 2 bytes lower, so the load reads the word
+        // that directly follows the bx: put the target there and move the padding NOP to the end.
+        // If we don't do that, the load will read the NOP and half of the target instead of the target function.
         if is_src_thumb && (src_ptr as usize % 4 != 0) {
-            patch.rotate_right(2);
-            patch[0] = 0xC0;
-            patch[1] = 0x46; // NOP instruction in Thumb mode
+            patch.copy_within(8..12, 6);
+            patch[10] = 0xC0;
+            patch[11] = 0x46; // NOP instruction in Thumb mode
         }
 
         unsafe {
